@@ -263,7 +263,7 @@ class FakeConnection(object):
 
     # uncounted helpers the real pools / providers call
     def create_function(self, name, n, func, *a, **k): self.functions.append(name)
-    def set_client_encoding(self, enc): pass
+    def set_client_encoding(self, enc): self.rec.tick(self, 'set_client_encoding')      # (PGPool._connect: a counted, faultable driver call)
     def ping(self, *a): pass
 
 
